@@ -269,12 +269,35 @@ class Program:
                             return ast.copy_location(copy.deepcopy(amap[fields[a.attr]]), n)
                         self.generic_visit(a)
                         return a
-                tail = [Sub().visit(copy.deepcopy(st)) for st in stmts]
-                for t in tail:
-                    for x in ast.walk(t):
-                        ast.copy_location(x, n.body[-1])
-                    ast.fix_missing_locations(t)
-                return n.body + tail
+                def mk_tail(at):
+                    tail = [Sub().visit(copy.deepcopy(st)) for st in stmts]
+                    for t in tail:
+                        for x in ast.walk(t):
+                            ast.copy_location(x, at)
+                        ast.fix_missing_locations(t)
+                    return tail
+
+                # a `return` inside the block leaves through __exit__ as well
+                def with_returns(block):
+                    out = []
+                    for st in block:
+                        if isinstance(st, ast.Return):
+                            out.extend(mk_tail(st))
+                            out.append(st)
+                            continue
+                        if not isinstance(st, (ast.FunctionDef, ast.AsyncFunctionDef,
+                                               ast.ClassDef)):
+                            for fld in ("body", "orelse", "finalbody"):
+                                sub = getattr(st, fld, None)
+                                if isinstance(sub, list) and sub and \
+                                        isinstance(sub[0], ast.stmt):
+                                    setattr(st, fld, with_returns(sub))
+                            for h in getattr(st, "handlers", []) or []:
+                                h.body = with_returns(h.body)
+                        out.append(st)
+                    return out
+                body = with_returns(n.body)
+                return body + mk_tail(n.body[-1])
 
         for m in self.modules.values():
             if cms and any(isinstance(w, ast.With) for w in ast.walk(m.tree)):
